@@ -174,3 +174,43 @@ Definition report_agrees (root : record) (st : status) (nc : list skel) (na c : 
       else if negb (skel_list_eqb (map skel_of (fr_not_compliant fr)) nc) then RepNotCompliant
       else RepAgree
   end.
+
+(* ---- C07: the other renderings are functions of the same record / report ---- *)
+
+(* summary_table.rs 161-180: three insertion-ordered maps; a rule defined several times is dropped from the
+   SKIP table when it also passed or failed *)
+Definition summary_passed (children : list record) : list string := rule_names_with PASS children.
+Definition summary_failed (children : list record) : list string := rule_names_with FAIL children.
+Definition summary_skipped (children : list record) : list string :=
+  filter (fun n => negb (existsb (String.eqb n) (rule_names_with PASS children)
+                         || existsb (String.eqb n) (rule_names_with FAIL children)))
+         (rule_names_with SKIP children).
+
+(* ClauseReport::get_message: the flattened list of reported checks; one SARIF result each (sarif.rs 124-...) *)
+Fixpoint message_count (r : creport) : nat :=
+  match r with
+  | RRule _ _ ch | RDisj ch =>
+      (fix go (l : list creport) : nat := match l with [] => O | x :: xs => (message_count x + go xs)%nat end) ch
+  | RBlockEmpty => 1%nat
+  | RLeaf _ => 1%nat
+  end.
+Definition sarif_result_count (fr : file_report) : nat :=
+  match fr_status fr with
+  | FAIL => fold_right (fun r acc => (message_count r + acc)%nat) O (fr_not_compliant fr)
+  | _ => O      (* SarifRun::from keeps only FAIL reports *)
+  end.
+
+(* the reported checks of a report tree: its leaves (Report.leaves) and its empty-block entries *)
+Fixpoint empty_blocks (r : creport) : nat :=
+  match r with
+  | RRule _ _ ch | RDisj ch =>
+      (fix go (l : list creport) : nat := match l with [] => O | x :: xs => (empty_blocks x + go xs)%nat end) ch
+  | RBlockEmpty => 1%nat
+  | RLeaf _ => O
+  end.
+Definition check_nodes (r : creport) : nat := (List.length (leaves r) + empty_blocks r)%nat.
+
+(* JUnit: one test case per (data file, rules file): its mark is the status of that evaluation (reporters/mod.rs 107-171) *)
+Inductive junit_mark := JPass | JFail | JSkip.
+Definition junit_mark_of (st : status) : junit_mark :=
+  match st with PASS => JPass | FAIL => JFail | SKIP => JSkip end.
